@@ -1494,6 +1494,10 @@ class DistPoisson(DistDiscrete):
     https://mathworld.wolfram.com/PoissonDistribution.html. 
     """
     
+    MAX_PRODUCT_RATE = 500.0
+    """the rate up to which a draw uses the product algorithm directly; a 
+    larger rate is split into equal parts below it"""
+    
     def __init__(self, stream: StreamInterface, rate: float):
         """
         Constructs a Poisson distribution. The Poisson distribution models 
@@ -1535,12 +1539,30 @@ class DistPoisson(DistDiscrete):
         the given rate. Adapted from Fortran program in Shannon, Systems 
         Simulation, 1975, p. 359.
         """
+        if self._rate <= self.MAX_PRODUCT_RATE:
+            return self._draw_product(self._expl)
+        # exp(-rate) underflows for rates above 745 (and is subnormal from
+        # 708): the sum of n independent Poisson(rate / n) variates is 
+        # Poisson(rate), so draw n parts with a rate below the threshold
+        n = math.floor(self._rate / self.MAX_PRODUCT_RATE) + 1
+        expl = math.exp(-self._rate / n)
+        x = 0
+        for _ in range(n):
+            x += self._draw_product(expl)
+        return x
+
+    def _draw_product(self, expl: float) -> int:
+        """
+        Draw a Poisson variate with the product algorithm: the number of
+        uniform random numbers, less one, whose product first drops to 
+        expl = exp(-rate) or below.
+        """
         s = 1.0
         x = -1
         while True:
             s *= self._stream.next_float()
             x += 1
-            if s <= self._expl:
+            if s <= expl:
                 break
         return x
 
